@@ -456,6 +456,10 @@ func RunService(r *rt.Run) error {
 				pts: []sItem{{tags: g, fields: map[string]any{"f": float64(i) + 0.5}, t: 1001 + i%2}, {tags: g, fields: map[string]any{"f": 2.5}, t: 1004 + i%3}}}}
 		}
 		addB(fmt.Sprintf("bsrc%d", n), sources...)
+		// and the same with one source that recorded nothing
+		withEmpty := append([][]bItem(nil), sources...)
+		withEmpty[n/2] = []bItem{}
+		addB(fmt.Sprintf("bsrcE%d", n), withEmpty...)
 	}
 	nRandB := 10
 	if r.Thorough() {
